@@ -331,6 +331,87 @@ impl<'a> PoolSet<'a> {
     }
 }
 
+/// Verification access to the crate-private pool (cargo feature `verif-hooks`).
+#[cfg(feature = "verif-hooks")]
+pub mod verif {
+    use std::ptr::NonNull;
+
+    use super::{Arena, ArenaString, CLASS_COUNT, Pool, PoolSet, SLOT_COUNTS, SLOT_SIZES};
+
+    pub const CLASSES: usize = CLASS_COUNT as usize;
+
+    /// Snapshot of one size class, read from the pool's own fields.
+    #[derive(Debug, Clone, PartialEq, Eq)]
+    pub struct ClassState {
+        pub base: usize,
+        pub slot_size: u32,
+        pub slot_count: u32,
+        pub bump: u32,
+        pub live: u32,
+        pub free: Vec<u32>,
+    }
+
+    pub struct Pools<'a>(PoolSet<'a>);
+
+    impl<'a> Pools<'a> {
+        /// The pool exactly as the runtime builds it.
+        pub fn new(arena: &'a Arena) -> Self {
+            Self(PoolSet::new(arena))
+        }
+
+        /// Same classes and slot sizes, caller-chosen slot counts (each >= 1).
+        pub fn with_slot_counts(arena: &'a Arena, counts: [u32; CLASSES]) -> Self {
+            let pools = std::array::from_fn(|i| Pool::new(arena, SLOT_SIZES[i], counts[i]));
+            Self(PoolSet { pools, arena })
+        }
+
+        pub fn alloc(&self, size: u32) -> NonNull<[u8]> {
+            self.0.alloc(size)
+        }
+
+        /// # Safety
+        /// As for the pool's `dealloc`: no live references into the buffer, `size` as allocated.
+        pub unsafe fn dealloc(&self, ptr: NonNull<u8>, size: u32) {
+            unsafe { self.0.dealloc(ptr, size) }
+        }
+
+        pub fn contains(&self, ptr: *const u8) -> bool {
+            self.0.contains(ptr)
+        }
+
+        pub fn alloc_str(&self, s: &str) -> ArenaString<'a> {
+            self.0.alloc_str(s)
+        }
+
+        pub fn class_state(&self, class: usize) -> ClassState {
+            let pool = &self.0.pools[class];
+            let free = (0..pool.free.len())
+                .map(|i| unsafe { pool.free.indices.as_ptr().add(i as usize).read() })
+                .collect();
+            ClassState {
+                base: pool.block.base.as_ptr() as usize,
+                slot_size: pool.block.slot_size,
+                slot_count: pool.block.slot_count,
+                bump: pool.block.bump.get(),
+                live: pool.live_count.get(),
+                free,
+            }
+        }
+    }
+
+    pub fn size_class(n: u32) -> Option<u32> {
+        super::size_class(n)
+    }
+
+    pub fn default_slot_counts() -> [u32; CLASSES] {
+        SLOT_COUNTS
+    }
+
+    pub fn slot_sizes() -> [u32; CLASSES] {
+        SLOT_SIZES
+    }
+}
+
 #[cfg(test)]
 mod tests {
     use super::*;
